@@ -45,6 +45,14 @@ def jobs(tier):
         for L in Ls:
             for extra in ((0, 1) if any("padded" in k for k in kinds) else (0,)):
                 add(kinds, L, extra)
+    # size thresholds: long strings of every string kind (all characters symbolic), followed by another field
+    for L in ((66, 130) if q else (33, 66, 130, 260)):
+        for k in ("string", "encoded_string", "fixed_string", "fixed_encoded_string"):
+            # (padded kinds stay at small lengths: the position of the first 0xFF couples all characters)
+            if k in ("string", "encoded_string"):
+                add(("char", k), L, 0)          # unbounded kinds end the data
+            else:
+                add((k, "short"), L, 0)
     if not q:
         for kinds in seqs(3):
             add(kinds, 2 if uses_len(kinds) else 0, 1 if any("padded" in k for k in kinds) else 0)
